@@ -105,8 +105,13 @@ func c12Extract(c *Ctx, fn *ssa.Function) {
 	b := ana.NewBuilder(c.P, fn)
 	ws := itoa(int64(c.wordBits() - 1))
 	idx := "bin<&>(p2, " + ws + ")"
+	// every position 0..242 is filled, in either direction (the order of independent stores is immaterial)
 	J := "ind<-1>(242)"
 	okLoop := len(edgesMatching(b, "bin<>=>("+J+", 0)")) == 1
+	if !okLoop {
+		J = "ind<+1>(0)"
+		okLoop = len(edgesMatching(b, "bin<<>("+J+", alt(243, len(_)))")) == 1
+	}
 	stored := false
 	for _, blk := range fn.Blocks {
 		for _, ins := range blk.Instrs {
@@ -128,7 +133,7 @@ func c12Extract(c *Ctx, fn *ssa.Function) {
 			_, okRet = ana.Match("call<"+c12Name(c, "toInt")+">(slice(obj(alloc<[243]int8>, maybe(_)), 0, none))", t)
 		}
 	}
-	r.Check(okLoop && stored && okRet, "C12.lane-extract.term", c.P.Pos(fn.Pos()), "stateToInt: for j = 242..0 trits[j] = int8((h[j]>>idx)&1) − int8((l[j]>>idx)&1); result toInt(trits[:]) (loop=%v store=%v ret=%v)", okLoop, stored, okRet)
+	r.Check(okLoop && stored && okRet, "C12.lane-extract.term", c.P.Pos(fn.Pos()), "stateToInt: for every j in 0..242 trits[j] = int8((h[j]>>idx)&1) − int8((l[j]>>idx)&1); result toInt(trits[:]) (loop=%v store=%v ret=%v)", okLoop, stored, okRet)
 }
 
 func c12ToInt(c *Ctx) {
